@@ -286,11 +286,15 @@ func (w *world) opNewTable(op M) {
 	via := opStrDef(op, "via", "core")
 	tb, wr := newTableVia(via, opStrDef(op, "style", ""))
 	at := coreOf(tb)
-	w.tables = append(w.tables, at)
+	w.tables = append(w.tables, tb)
 	w.atables = append(w.atables, at)
 	w.hdrItems = append(w.hdrItems, nil)
 	if wr != nil {
 		wr.over = len(w.tables)
 		w.wrappers = append(w.wrappers, wr)
+		op["rkind"] = wr.kind
+		if d := decorOfWrapper(wr.rt); d != nil {
+			op["dec"] = d
+		}
 	}
 }
